@@ -736,6 +736,9 @@ pub fn run_lines(lines: &[String], oracles: bool) -> RunResult {
         if let Some(m) = misuse.first() {
             fail!("C08 host id misuse after `{line}`: {m}");
         }
+        if let Some(f) = crate::hosts::take_callsite_flaws().first() {
+            fail!("C09 after `{line}`: {f}");
+        }
         i += 1;
     }
 
@@ -1252,6 +1255,7 @@ fn gen_c09(rng: &mut Rng) -> Vec<String> {
     }
     let mut next_id = 100u64;
     let mut span = 0u64;
+    let mut kept: Vec<u64> = vec![];
     lines.push("stats".into());
     for round in 0..rng.range(2, 4) {
         for site in &variants {
@@ -1264,13 +1268,32 @@ fn gen_c09(rng: &mut Rng) -> Vec<String> {
             if site.is_span {
                 span += 1;
                 lines.push(format!("ev {}", Ev::NewSpan { id: span, parent: None, mt: id, values: vec![] }.tok()));
-                lines.push(format!("ev drp {span}"));
+                // some spans stay alive while their call-site id is announced again with another
+                // description (a rebuilt guest): the new description replaces the old one all the same
+                if rng.chance(1, 3) {
+                    kept.push(span);
+                } else {
+                    lines.push(format!("ev drp {span}"));
+                }
             } else {
                 lines.push(format!("ev {}", Ev::NewEvent { mt: id, parent: None, values: vec![] }.tok()));
             }
         }
-        lines.push((*rng.pick(&["h persist keep", "h persist lose", "h persist losenew", "h discard"])).to_owned());
+        let drop_before = rng.chance(1, 2);
+        if drop_before {
+            for s in kept.drain(..) {
+                lines.push(format!("ev drp {s}"));
+            }
+        }
+        let op = *rng.pick(&["h persist keep", "h persist lose", "h persist losenew", "h discard"]);
+        lines.push(op.to_owned());
         lines.push("stats".into());
+        if op == "h discard" {
+            kept.clear(); // (rolled back with the discarded segment)
+        }
+        for s in kept.drain(..) {
+            lines.push(format!("ev drp {s}"));
+        }
     }
     lines
 }
